@@ -129,3 +129,123 @@ def documented_exception(W, e):
     import ssl
 
     return isinstance(e, (W.WebSocketException, OSError, ssl.SSLError))
+
+
+# ---------------------------------------------------------------------------
+# generic executor for receive scripts (C02-C07, C03)
+
+
+def classify_exc(W, e):
+    if isinstance(e, (W.WebSocketProtocolException, W.WebSocketPayloadException)):
+        return "protocol"
+    if isinstance(e, W.WebSocketConnectionClosedException):
+        return "closed"
+    if isinstance(e, W.WebSocketTimeoutException):
+        return "timeout"
+    if isinstance(e, OSError):
+        return "transport"
+    return "other:" + type(e).__name__
+
+
+def shape_value(name, v, per_fragment=False):
+    if name == "recv":
+        return ("str", v) if isinstance(v, str) else ("bytes", bytes(v))
+    if name == "recv_frame":
+        return (int(v.fin), int(v.opcode), _b(v.data))
+    if name == "recv_data":
+        return (int(v[0]), _b(v[1]))
+    op, fr = v
+    return (int(op), _b(fr.data), int(fr.fin))
+
+
+def _b(d):
+    if isinstance(d, str):
+        return d.encode("utf-8")
+    return bytes(d)
+
+
+def run_recv_script(stream, script, segs=None, ending="eof", ws_kwargs=None, timeout=5, head_cuts=None, max_timeouts=50):
+    """Run `script` (list of (name, control_frame)) against `stream` delivered
+    behind the handshake response.  segs: list of bytes/(TIMEOUT,None) items
+    for the frame part (default: one segment).  Returns dict with the observed
+    trace.  Must run inside a simulation."""
+    from .ref import rfc6455 as R
+
+    W = ws()
+    so, conn = net.pair()
+    peer = HandshakePeer(conn)
+    w = W.WebSocket(**(ws_kwargs or {}))
+    so.settimeout(timeout)
+    w.sock_opt.timeout = timeout
+    state = {}
+
+    def on_open(c):
+        # frames behind the response
+        pass
+
+    if head_cuts is None:
+        # response in one segment, frames per `segs`
+        peer.after = b""
+
+        def on_open(c):  # noqa
+            if segs is None:
+                c.deliver(stream)
+            else:
+                c.deliver_segments(segs)
+            if ending == "eof":
+                c.peer_close()
+            elif ending == "reset":
+                c.peer_reset()
+        peer.on_open = on_open
+    else:
+        # the whole server byte stream (response + frames) cut at head_cuts
+        peer.after = stream
+        peer.cuts = head_cuts
+
+        def on_open(c):  # noqa
+            if ending == "eof":
+                c.peer_close()
+            elif ending == "reset":
+                c.peer_reset()
+        peer.on_open = on_open
+    w.connect("ws://sim.test/", socket=so)
+    resp_len = len(peer.response_bytes)
+    trace = []
+    timeouts = 0
+    post_timeout_bad = []
+    for name, cf in script:
+        before_w = len(peer.client_stream)
+        tries = 0
+        while True:
+            try:
+                if name == "recv":
+                    v = w.recv()
+                elif name == "recv_data":
+                    v = w.recv_data(cf)
+                elif name == "recv_data_frame":
+                    v = w.recv_data_frame(cf)
+                else:
+                    v = w.recv_frame()
+                out = ("ret", shape_value(name, v))
+            except BaseException as e:  # noqa
+                if isinstance(e, (sched.SimAbort, KeyboardInterrupt)):
+                    raise
+                k = classify_exc(W, e)
+                if k == "timeout" and conn.rx and tries < max_timeouts:
+                    # an injected timeout: the call is retried
+                    timeouts += 1
+                    tries += 1
+                    if not w.connected or so._closed:
+                        post_timeout_bad.append((len(trace), w.connected, so._closed))
+                    continue
+                out = ("exc", k, repr(e)[:120], repo_frame_of(e))
+            break
+        written = bytes(peer.client_stream[before_w:])
+        frames, rest = R.decode_all(written)
+        wr = [(f.opcode, f.payload, f.fin, f.masked, f.rsv) for f in frames]
+        trace.append({"call": name, "cf": cf, "out": out, "writes": wr, "write_rest": len(written) - rest,
+                      "consumed": conn.consumed - resp_len})
+        if out[0] == "exc" or (name != "recv_frame" and not w.connected):
+            break
+    return {"trace": trace, "timeouts": timeouts, "post_timeout_bad": post_timeout_bad, "conn": conn, "ws": w,
+            "sock": so, "peer": peer, "resp_len": resp_len}
